@@ -968,6 +968,29 @@ def attribute_order(ctx):
             detail={"rebuilds_in_order": bool(rebuild)})
 
 
+# ---------------------------------------------------------------------------- C01.17 white space handled by the in-body rules
+# insertion modes in which a white-space character token is "processed using the rules for the in body insertion mode" (which
+# reconstruct the active formatting elements, honour the ignore-next-LF state of <pre>/<textarea> and then insert the character)
+SPACE_VIA_IN_BODY = ("inCaption", "inCell", "afterBody", "afterAfterBody", "afterAfterFrameset")
+
+
+def space_delegation(ctx):
+    r = ctx.r
+    pm = model(ctx)
+    for key in SPACE_VIA_IN_BODY:
+        cls = pm.phases[key]
+        m = cls.find_method("processSpaceCharacters")
+        body = [norm(s) for s in m.node.body if not (isinstance(s, ast.Expr) and isinstance(s.value, ast.Constant))] if m else []
+        delegates = any("phases['inBody'].processSpaceCharacters(" in b or "phases['inBody'].processCharacters(" in b for b in body)
+        inherited = m is not None and m.cls is pm.Phase
+        r.idiom("C01.17", delegates, "space-via-in-body::%s" % key, (m.where if m else cls.where),
+                "%s.processSpaceCharacters not recognised: %s" % (cls.name, body[:2]),
+                wrong=[(inherited, "in the %s insertion mode white space is inserted by the generic Phase.processSpaceCharacters instead of being "
+                                   "processed with the in-body rules: the newline after <pre> / <textarea> is kept (<table><tr><td><pre>\\nx) and the "
+                                   "active formatting elements are not reconstructed first" % key)],
+                detail={"phase": key, "handler": m.qual if m else None})
+
+
 # ---------------------------------------------------------------------------- C01.10 quirks mode
 QUIRKS_EXACT = {"-//w3o//dtd w3 html strict 3.0//en//", "-/w3c/dtd html 4.0 transitional/en", "html"}
 QUIRKS_SYSTEM = "http://www.ibm.com/data/dtd/v11/ibmxhtml1-transitional.dtd"
@@ -1333,6 +1356,7 @@ def run(ctx):
     r.rule("C01.10", "quirks / limited-quirks decision equals the standard's for representative DOCTYPE tokens", floor=500)
     r.rule("C01.11", "a delegation whose result is discarded cannot lose a reprocess request", floor=50)
     r.rule("C01.13", "formatting-list scans stop at markers; stale formatting element removed from both lists; foreign breakout pops to an HTML element or integration point", floor=10)
+    r.rule("C01.17", "white space is handed to the in-body rules in the modes where the standard says so", floor=5)
     r.rule("C01.16", "attribute-name adjustment rebuilds the mapping in source order", floor=1)
     r.rule("C01.15", "adoption agency: outer loop bounded by 8, inner loop not bounded by a counter", floor=2)
     r.rule("C01.14", "foster parenting is applied exactly when it is enabled and the current node is table/tbody/tfoot/thead/tr", floor=25)
@@ -1353,6 +1377,7 @@ def run(ctx):
     foster_condition(ctx)
     adoption_loops(ctx)
     attribute_order(ctx)
+    space_delegation(ctx)
     from . import modes
     modes.run(ctx, "C01.12")
     standard_tables(ctx)
@@ -1366,6 +1391,7 @@ def thorough(ctx):
 def mutants():
     from ..selftest import TextMutant as T
     return [
+        T("cell-space-generic", "html5parser.py", "    def processSpaceCharacters(self, token):\n        return self.parser.phases[\"inBody\"].processSpaceCharacters(token)\n\n    def startTagTableOther(self, token):", "    def startTagTableOther(self, token):", "C01.17"),
         T("foster-any-node", "treebuilders/base.py", "        if (not self.insertFromTable or (self.insertFromTable and\n                                         self.openElements[-1].name\n                                         not in tableInsertModeElements)):", "        if not self.insertFromTable:", "C01.14"),
         T("foster-element-any-node", "treebuilders/base.py", "        if self.openElements[-1].name not in tableInsertModeElements:\n            return self.insertElementNormal(token)", "        if False:\n            return self.insertElementNormal(token)", "C01.14"),
         T("adoption-outer-loop-16", "html5parser.py", "while outerLoopCounter < 8:", "while outerLoopCounter < 16:", "C01.15"),
